@@ -420,7 +420,7 @@ def _same(got, exp, adapter):
                 return True
             if adapter != 'schedule_rpc' or e is None:
                 break
-            e = e.__cause__ or e.__context__
+            e = e.__cause__  # (wrapped deliberately, ``raise ... from exc``: an error that merely happened while the failure was being handled does not carry it)
         return False
     if got[0] == 'result':
         return got[1] == exp[1] and type(got[1]) is type(exp[1])
